@@ -1454,13 +1454,14 @@ def run(chk: core.Check):
     # 1b. the imperfection lattice: every cell (fixed non-ideal values; thorough: random non-ideal values too)
     #     through every kind of observation
     lat = [(c, P) for c, P in LATTICE.items()]
-    for _ in range(chk.pick(0, 3)):
+    for _ in range(chk.pick(0, 2)):
         for mask in range(16):
             for model in (DIST, INDIST):
                 P = lattice_params(mask, model, rng=rng)
                 lat.append((cell_of(P), P))
-    lat_inputs = chk.pick([[1], [2], [1, 1], [0, 2], [1, 0, 1], [2, 1]], all_inputs(3, 2, 4))
-    n_lat = chk.pick(8000, 40000)
+    lat_inputs = chk.pick([[1], [2], [1, 1], [0, 2], [1, 0, 1], [2, 1]],
+                          all_inputs(2, 2, 4) + [[1, 0, 1], [2, 1, 1], [0, 1, 2]])
+    n_lat = 8000
     for il, (cell, P) in enumerate(lat):
         for ns in lat_inputs:
             cases.append({"kind": "gen", "P": P, "ns": ns})
